@@ -42,6 +42,9 @@ void pmc_on_stuck(void (*cb)(void));
 void pmc_focus_pthread(int on);
 void pmc_set_quantum(long ops);
 void pmc_set_stuck_rounds(long rounds);
+// Horizon: an execution performing more hooked atomic operations than this is reported as stuck
+// (livelock); default 6 000 000 (normal executions need 10^4..10^5).
+void pmc_set_horizon(long ops);
 
 // ---- driver -----------------------------------------------------------------------------------
 typedef struct pmc_spec
